@@ -190,14 +190,23 @@ def run(ctx):
     f_dp = ctx.anchor("CustomRecord._delayed_initialize_positional_fields",
                       custom.find_method(
                           "_delayed_initialize_positional_fields"))
-    for rt in spec.GFA1_ONLY:
+    class CRH(GfaHooks):
+        def before_inline(self, ev, func, args, kwargs):
+            if func.name == "_init_field_value":
+                args[0].attrs["_data"][args[1]] = args[3]
+                return None
+            return super().before_inline(ev, func, args, kwargs)
+    for rt, vl in itertools.product(spec.GFA1_ONLY, (0, 1)):
+        # at every validation level: this is the only thing that keeps a
+        # GFA1 line given as text out of a GFA2 document
         ctx.instance(R)
-        cr = Abs(custom, label="custom")
-        out = eval_function(repo, f_dp, [cr, [rt, "x"], 2], hooks=hooks)
+        cr = Abs(custom, label="custom", vlevel=vl, _data={}, _datatype={},
+                 _positional_fieldnames=[], _version="gfa2", _virtual=False)
+        out = eval_function(repo, f_dp, [cr, [rt, "x"], 2], hooks=CRH(repo))
         ok = out[0] == "raise" and str(out[1]).endswith("VersionError")
         ctx.oblige(ok)
         if not ok:
-            ctx.violation(R, f_dp.short, "record_type=%r" % rt,
+            ctx.violation(R, f_dp.short, "record_type=%r,vlevel=%d" % (rt, vl),
                           "a GFA1-only record type used in GFA2 is not refused "
                           "with VersionError (%r)" % (out[1],))
     # segment syntax sniffing
@@ -379,17 +388,18 @@ def run(ctx):
         else:
             ctx.sample({"rule": R, "cell": cell, "version": v_set,
                         "guess": g_set, "calls": ns}, limit=12)
-    # an unsupported VN is refused at vlevel > 0
-    for vl in (0, 1):
+    # a VN other than 1.0 / 2.0 is refused at vlevel > 0 (the version
+    # specific adders accept exactly those two spellings)
+    for vl, vn in itertools.product((0, 1), ("3.0", "1.1", "1.2", "2.1", "1")):
         ctx.instance(R)
         uh = UH(repo, None)
         g = mk_gfa(None, vlevel=vl)
-        out = eval_function(repo, f_u, [g, mk_line("H", None, "3.0")], hooks=uh)
+        out = eval_function(repo, f_u, [g, mk_line("H", None, vn)], hooks=uh)
         ok = (out[0] == "raise" and str(out[1]).endswith("VersionError")) \
             if vl > 0 else out[0] == "return"
         ctx.oblige(ok)
         if not ok:
-            ctx.violation(R, f_u.short, "record=H,VN=3.0,vlevel=%d" % vl,
+            ctx.violation(R, f_u.short, "record=H,VN=%s,vlevel=%d" % (vn, vl),
                           "outcome %r" % (out[0:2],))
     ctx.exhaustive[R] = True
 
